@@ -75,7 +75,7 @@ PROPS = {
         title="All ways of loading a time zone give the same zone",
         verus=["posix", ("posix", "_static", STATIC)],
         all_fns=True,
-        kani_quick=["c17_tzif", "c18_designation", "c18_static_quote"], kani_thorough=[],
+        kani_quick=["c17_tzif", "c18_designation", "c18_static_quote", "c18_name_cmp"], kani_thorough=[],
         design_ref="DESIGN.md section 4, C18",
         level_text="Narrow claim: the two copies of the shared time-zone core (src/shared/** used by jiff and the generated crates/jiff-static/src/shared/** used by the static-zone macros) each satisfy the SAME functional contracts (result == spec(args)) for the calendar core and the POSIX rule evaluation, hence agree with each other on every input; a drift in either copy fails a named obligation. Database back-ends, proc-macro expansion and slim/fat zic output are not covered (DESIGN.md section 4, C18).",
     ),
@@ -112,9 +112,9 @@ PROPS = {
     "C09": dict(
         title="Datetimes print to RFC 3339/9557 text that parses back to the same value",
         verus=[],
-        kani_quick=["c09_printer", "c17_offset", "c09_datetime", "c09_offset_optional"], kani_thorough=[],
+        kani_quick=["c09_printer", "c17_offset", "c09_datetime", "c09_offset_optional", "c09_zoned_native"], kani_thorough=[],
         design_ref="DESIGN.md section 4, C09",
-        level_text="Civil part + offsets, on the real printer and parser (Kani, full domain, no bounded stand-in): for EVERY Date / Time / DateTime the default printed form is the ISO 8601 text an independent digit-by-digit reader decodes to the same fields (years < 0 as -YYYYYY), the real date/time parsers equal that reader on every byte string of the relevant shapes, and parse(print(x)) == x (thorough-tier round-trip harnesses; quick tier: printers + time parser); offsets: print_offset_rounded / full_precision for every offset, and (thorough) the offset parser returns exactly the printed offset. NOT decided: Timestamp/Zoned printing (instant -> civil conversion is C02/C13; zone annotation, IANA-name lookup), non-default printer options, serde. Known finding F24: years < 0 print as -YYYYYY, which is not RFC 3339.",
+        level_text="Civil part + offsets, on the real printer and parser (Kani, full domain, no bounded stand-in): for EVERY Date / Time / DateTime the default printed form is the ISO 8601 text an independent digit-by-digit reader decodes to the same fields (years < 0 as -YYYYYY), the real date/time parsers equal that reader on every byte string of the relevant shapes, and parse(print(x)) == x (thorough-tier round-trip harnesses; quick tier: printers + time parser); offsets: print_offset_rounded / full_precision for every offset, and (thorough) the offset parser returns exactly the printed offset. Zoned: BOUNDED native check over every zone of the bundled database (local-mean-time period, the first six transitions, modern instants): print then parse gives the same instant, offset, civil time and zone. NOT decided: Timestamp printing end to end, non-default printer options, serde. Known findings F24 (years < 0 print as -YYYYYY, not RFC 3339) and F28 (a fold whose two offsets round to the same minute prints two instants identically).",
     ),
     "C11": dict(
         title="Span balancing and rounding are exact relative to a reference",
@@ -126,14 +126,14 @@ PROPS = {
     "C16": dict(
         title="strftime/strptime and RFC 2822 agree with the calendar and invert each other",
         verus=["kspec"],
-        kani_quick=["c16_strftime", "c16_fields", "c16_parse", "c16_todate"], kani_thorough=[],
+        kani_quick=["c16_strftime", "c16_fields", "c16_parse", "c16_todate", "c16_rfc2822_offset"], kani_thorough=[],
         design_ref="DESIGN.md section 4, C16",
         level_text="Numeric strftime/strptime on the real Formatter / Parser methods (Kani; full domain unless a harness is labelled bounded): every numeric specifier prints the value the C library defines with the documented padding for ALL dates/times/offsets (%j %U %W %u %w %Y %y %C %m %d %e %H %k %I %l %M %S %p %P %G %g %V %s %f %z, flags and widths), the field parsers accept exactly the documented shapes with the decoded in-range value on every byte window, BrokenDownTime::to_date reconstructs the date from (Y,m,d), (Y,j) and (G,V,u), and (thorough tier) format-then-parse round trips.  NOT decided: the directive loop of Parser::parse as a whole (CBMC runs out of memory), %U/%W-based date reconstruction, locale names beyond %a %b %B %A, RFC 2822.  Known finding F26: %A cannot parse \"Tuesday\" (misspelt table entry pinned by a repository snapshot test).",
     ),
     "C17": dict(
         title="Parsers are total: arbitrary input gives Ok or Err, and Ok values are sane",
         verus=["tzif", "posix"],
-        kani_quick=["c17_tzif", "c17_posix", "c17_offset", "c18_designation", "c09_datetime", "c09_offset_optional", "c16_parse"], kani_thorough=[],
+        kani_quick=["c17_tzif", "c17_posix", "c17_offset", "c18_designation", "c09_datetime", "c09_offset_optional", "c16_parse", "c16_rfc2822_offset", "c17_friendly_native"], kani_thorough=[],
         design_ref="DESIGN.md section 4, C17",
         level_text="TZif part only. Proof (loop-free, full domain): the 44-byte TZif header parser and all block-length computations never panic and return exact products or Err on overflow. Bounded stand-ins (bounds stated in evidence.coverage.bounded, never counted as proved): the transition-type and local-time-type block parsers on 2 records. 'A time zone built from accepted data answers every lookup without panicking' is the Verus obligations of the tzif and posix units (tables of any length, every rule) under the well-formedness that the block parsers establish (type indices < number of types, offsets in range). NOT decided: Temporal/friendly/RFC 2822/strptime/offset/RFC 9557/POSIX-TZ text parsers, 'work proportional to input'.",
     ),
